@@ -71,8 +71,11 @@ def explore(rep, tier, caps, rule='history-reachability', sinks_only=False, max_
     total_states = 0
     total_trans = 0
     for cap in caps:
+        # a capacity may come with the thread count the object is built for: (capacity, nThreads).  The team is always one
+        # abstract thread (OpenMP never promises the team that was asked for)
+        cap, nth = cap if isinstance(cap, tuple) else (cap, 1)
         R = Runner('avx2')
-        W, this, snap0 = R.world(cap, 1)
+        W, this, snap0 = R.world(cap, nth)
         ops = ops_for(cap, tier)
         states = {state_key(W, this): snap0}
         order = [snap0]
@@ -83,14 +86,14 @@ def explore(rep, tier, caps, rule='history-reachability', sinks_only=False, max_
             qi += 1
             for op in ops:
                 W.restore(snap)
-                R.worlds[(cap, 1, 1)] = (W, this, snap)
+                R.worlds[(cap, nth, 1)] = (W, this, snap)
                 if op[0] in ('ntt', 'intt'):
-                    r = R.run_transform(op[0], cap, op[1], 2, op[2], op[3], False, 'other', 1, restore=False)
+                    r = R.run_transform(op[0], cap, op[1], 2, op[2], op[3], False, 'other', nth, restore=False)
                 else:
-                    r = R.run_extend(cap, op[1], op[2], op[5], op[3], op[4], False, 1, True, restore=False)
+                    r = R.run_extend(cap, op[1], op[2], op[5], op[3], op[4], False, nth, True, restore=False)
                 total_trans += 1
                 h = hist[id(snap)]
-                tag = 'history:cap=%d [%s] then %s' % (cap, ' ; '.join(map(str, h)) or 'fresh', op)
+                tag = 'history:cap=%d%s [%s] then %s' % (cap, '' if nth == 1 else ' nThreads=%d' % nth, ' ; '.join(map(str, h)) or 'fresh', op)
                 if r is None:
                     if not sinks_only:
                         rep.ok(tag, rule, 'src/ntt_goldilocks.cpp', 'call result equals the specification in this object state')
@@ -118,7 +121,7 @@ def explore(rep, tier, caps, rule='history-reachability', sinks_only=False, max_
         if not sinks_only:
             rep.sample(dict(capacity=cap, operations=len(ops), distinct_object_states=len(order),
                             example_history=[str(x) for x in hist[id(order[-1])]]))
-        R.worlds[(cap, 1, 1)] = (W, this, snap0)
+        R.worlds[(cap, nth, 1)] = (W, this, snap0)
     return total_states, total_trans
 
 
@@ -129,7 +132,7 @@ def run(rep, tier, seed):
                      'vectors (= what a fresh object delivers, C03-C05), for all input data. Closure of the explored state set under all operations '
                      'covers every finite call sequence over the alphabet. Shape-independent rules: field write sets per method, memo guard on the '
                      'cached coset table')
-    total_states, total_trans = explore(rep, tier, (4, 16) if tier == 'quick' else (4, 16, 64))
+    total_states, total_trans = explore(rep, tier, (4, 16, (4, 3)) if tier == 'quick' else (4, 16, 64, (4, 3), (16, 2)))
     rep.cov['states'] = total_states
     rep.cov['transitions'] = total_trans
     rep.cov['traces_validated_against_impl'] = 0
